@@ -15,6 +15,15 @@ class Limits:
         self.min_mw = float(min_mw)
         self.min_length = int(min_length)
         self.max_length = int(max_length)
+        self.mixed = False
+
+    def mixed_copy(self, mode='mixed'):
+        l2 = Limits(self.rule, self.exception, self.miscleavage, self.min_mw, self.min_length, self.max_length)
+        l2.mixed = mode
+        return l2
+
+    def has_context(self):
+        return rules.has_context(self.rule, self.exception)
 
     def key(self):
         return (self.rule, self.exception, self.miscleavage, self.min_mw, self.min_length, self.max_length)
@@ -44,9 +53,40 @@ def ok_peptide(p: str, lim: Limits, mass_margin: float = 0.0) -> bool:
 
 def windows(aa: str, lim: Limits):
     """All (start, end) windows between cleavage sites with at most `miscleavage` internal sites."""
-    sites = [0] + rules.cleave_sites(aa, lim.rule, lim.exception) + [len(aa)]
     if len(aa) == 0:
         return
+    mode = getattr(lim, 'mixed', False)
+    if mode and rules.has_context(lim.rule, lim.exception):
+        # attribution regimes for the known finding "cleavage context is evaluated per graph node"
+        loose = set(rules.loose_sites(aa, lim.rule)) | set(rules.cleave_sites(aa, lim.rule, None))
+        mand = set(rules.mandatory_sites(aa, lim.rule, lim.exception))
+        pts = sorted({0, len(aa)} | loose)
+        if lim.rule.startswith('pepsin'):
+            # pepsin's five-residue context is mis-evaluated so broadly (known finding) that only the
+            # sequence content of a peptide is attributed, not its boundaries
+            pts = list(range(len(aa) + 1))
+        if mode == 'mixed':
+            # every loose site may or may not be cut; only mandatory sites count as missed cleavages
+            for i in range(len(pts) - 1):
+                k = 0
+                for j in range(i + 1, len(pts)):
+                    yield pts[i], pts[j]
+                    if pts[j] in mand:
+                        k += 1
+                        if k > lim.miscleavage:
+                            break
+        else:
+            # robust: windows that exist however the optional sites are treated: both ends mandatory
+            # (or protein ends), no optional site inside, at most `miscleavage` mandatory sites inside
+            ends = sorted({0, len(aa)} | mand)
+            for i in range(len(ends) - 1):
+                for j in range(i + 1, min(i + lim.miscleavage + 2, len(ends))):
+                    a, b = ends[i], ends[j]
+                    if any(a < x < b and x not in mand for x in loose):
+                        continue
+                    yield a, b
+        return
+    sites = [0] + rules.cleave_sites(aa, lim.rule, lim.exception) + [len(aa)]
     n = len(sites)
     for i in range(n - 1):
         for j in range(i + 1, min(i + lim.miscleavage + 2, n)):
